@@ -42,6 +42,23 @@ def gen(rng, tier):
             for op in (ops if tier == "thorough" else rng.sample(ops, 4)):
                 yield Case("bip44", [fam, m, "-", hx(seed), ",".join(pre + [op])], "edge")
         yield Case("bip44", [fam, m, "-", hx(seed), "D"], "default-path")
+    # the object returned by DeriveDefaultPath is an ordinary object of its depth (3, 4 or 5 according to the coin's default path): every
+    # operation applied to it is admitted or refused exactly as on the manually derived object. One member per (family, default-path
+    # length) x every operation, then random (member, operation) pairs; thorough: every member x every operation
+    after_default = ["P", "C", "A0", "A2147483648", "X0", "X1", "I0", "I5", "D", "N", "RX", "RR3"]
+    groups = {}
+    for fam, m in mem:
+        cls, en, getter = FAM[fam]
+        groups.setdefault((fam, getter.GetConfig(en[m]).DefaultPath().count("/")), []).append((fam, m))
+    if tier == "thorough":
+        pairs = [(fm, op) for fm in mem for op in after_default]
+    else:
+        pairs = [(rng.choice(groups[g]), op) for g in sorted(groups) for op in after_default]
+        pairs += [(mem[rng.randrange(len(mem))], rng.choice(after_default)) for _ in range(30)]
+    for (fam, m), op in pairs:
+        yield Case("bip44", [fam, m, "-", hx(seed), "D," + op], "after-default-path")
+        if op in ("N", "RX", "RR3"):      # ... and so is the object obtained from it by conversion / re-import
+            yield Case("bip44", [fam, m, "-", hx(seed), "D,%s,%s" % (op, rng.choice(after_default[:9]))], "after-default-path")
     # re-import with arbitrary depth metadata (raw key + depth, parent fingerprint left at its all-zero default), then every operation:
     # the level is the depth, whatever the fingerprint or the history says
     fams = sorted({f for f, _ in mem})
@@ -59,12 +76,15 @@ def gen(rng, tier):
         seq = []
         depth = 0
         for _ in range(n):
-            if rng.random() < 0.7 and depth < 5:       # mostly the legal next step
+            first_default = i % 8 == 7 and not seq     # one history in eight starts from the default-path object
+            if not first_default and rng.random() < 0.7 and depth < 5:       # mostly the legal next step
                 op = [PATH[0], PATH[1], "A%d" % rng.choice(IDX_EDGE[:4] + [rng.getrandbits(31)]), "X%d" % rng.randrange(2),
                       "I%d" % rng.choice(IDX_EDGE[:4] + [rng.getrandbits(31)])][depth]
                 depth += 1
             else:
-                op = rng.choice(ops)
+                op = "D" if first_default else rng.choice(ops)
+                if op == "D" and depth == 0:       # the history continues from the depth of the coin's default path
+                    depth = 3 + FAM[fam][2].GetConfig(FAM[fam][1][m]).DefaultPath().count("/")
             seq.append(op)
         yield Case("bip44", [fam, m, "-", hx(rand_seed(rng)), ",".join(seq)], "history")
 
